@@ -27,6 +27,9 @@ PROP = {'streams': [('c17', 1000, 100000)],
               'manifest_sound_valid',
               'decision_sliced_valid',
               'manifest_sound_valid_accepted',
+              'manifest_sound_valid_lit',
+              'decision_sliced_valid_lit',
+              'ctxWF_not_from_conformance',
               'typed_false_environment_breaks_slicing'],
  'assumptions': ['manifest_sound_partial / response_sliced_partial are PROVED ONLY FOR THE FRAGMENT `Cedar.Manifest.InFrag` (literals, variables, . and '
                  'has chains through records and entities, && || !, if (also producing entities/records that are then dereferenced), unary -, isEmpty, '
@@ -44,6 +47,11 @@ PROP = {'streams': [('c17', 1000, 100000)],
                  'NOT diffed against the typed ASTs Rust produces (those are what the correspondence run feeds the analysis model); remaining '
                  'side conditions of manifest_sound_valid: NoRecOps (== not on records, contains not looking for a record - syntactic on the '
                  'typed AST) and CtxWF (context keys unique); the specification is still also checked on every sampled slice (driver op mspec)',
+                 'manifest_sound_valid_lit REMOVES NoRecOps AND ADDS RECORD / SET LITERALS (FragL: FragE + set literals + record literals with distinct keys; '
+                 'VRel extends PCover to WrappedAccessPaths::RecordLiteral / SetLiteral, SimL extends Sim, full_eq: where full_type_required is requested the slice '
+                 'holds the whole value): its hypotheses instead of NoRecOps / CtxWF are SortedReq req and SortedStore es (context and attribute records key-sorted, '
+                 'recursively through records: Rust Value records are BTreeMaps; the model Value is an association list and Value.beq on records is positional); '
+                 'that the slice is key-sorted is proved (sortedStore_slice); CtxWF does not follow from ConformsRequest alone (ctxWF_not_from_conformance)',
                  'the typed AST of each policy per request environment, the resolved schema and to_typed input are taken from Rust '
                  '(Typechecker::typecheck_by_request_env, ValidatorSchema); to_typed is mirrored, diffed and part of the end-to-end proof (response_sliced_static)',
                  'the analysis rejects policies with tags (UnsupportedCedarFeature): outside the property by construction, counted '
@@ -65,7 +73,7 @@ TEXT = ('Lean model (Cedar/Manifest.lean) mirroring entity_manifest.rs + analysi
  'to_typed and the analysis into response_sliced_static: for static policies in the fragment the response over sliceStore(manifest) equals the '
  'response over the full store, for data conforming to the schema as far as the tries look (ConfRoots); full_statement_of_fragment reduces the '
  'full statement (exclusions: typed-False environments, templates, tags, unknowns, slicer failure exits) to fragment coverage + the C03/C11 links. '
- 'manifest_sound_valid discharges both links for the C03 typechecker model and the C11 conformance notions (static policies of the fragment accepted by checkEnv strict and not typed False, conformant request/store: authorization of the original policies over sliceStore(manifest of the typed ASTs) equals authorization over the full store; the typed AST includes the short-circuit transformations of the typechecker). Extension function calls are covered by manifest_sound_valid (Sim.call1 / call2). NOT proved: record and set literals, == / contains on records. The statement on the implementation (authorization over slice_entities == over the full store) is searched on generated '
+ 'manifest_sound_valid discharges both links for the C03 typechecker model and the C11 conformance notions (static policies of the fragment accepted by checkEnv strict and not typed False, conformant request/store: authorization of the original policies over sliceStore(manifest of the typed ASTs) equals authorization over the full store; the typed AST includes the short-circuit transformations of the typechecker). Extension function calls are covered by manifest_sound_valid (Sim.call1 / call2). manifest_sound_valid_lit extends this to RECORD AND SET LITERALS (dereferenced, as operands, nested) and to == / contains / containsAll / containsAny ON RECORDS (no NoRecOps side condition): where the analysis requests the full type the slice holds the whole value (full_eq), for key-sorted contexts and stores (SortedReq, SortedStore: BTreeMap invariant; the sortedness of the slice is proved). NOT proved: the keeps-more-entities half of slice_monotone. The statement on the implementation (authorization over slice_entities == over the full store) is searched on generated '
  'schema worlds with manifest-stressing policy families; two classes of genuine failures are recorded as known findings (typed-False environments; '
  'template slots).',
  'proof over a hand-written model for a stated fragment (analysis + to_typed + slicer + authorizer composed); the remaining constructs '
